@@ -127,6 +127,28 @@ func TranspileSrc(files map[string]string, main string, target Target) TResult {
 	return TranspilePath(filepath.Join(dir, main), target, 20*time.Second)
 }
 
+// TranspileSecond writes the files into a scratch directory and transpiles main for target AFTER the same transpiler object
+// has translated it for the other target - what the tsh command does for "-t batch -t bash". The first result is dropped.
+func TranspileSecond(files map[string]string, main string, target Target) (res TResult) {
+	dir := Scratch("src2")
+	defer os.RemoveAll(dir)
+	WriteFiles(dir, files)
+	path := filepath.Join(dir, main)
+	defer func() {
+		if p := recover(); p != nil {
+			res = TResult{Panic: fmt.Sprint(p)}
+		}
+	}()
+	other := Batch
+	if target == Batch {
+		other = Bash
+	}
+	t := transpiler.New()
+	t.Transpile(path, NewConverter(other))
+	s, err := t.Transpile(path, NewConverter(target))
+	return TResult{Script: s, Err: err}
+}
+
 // TranspileOne transpiles a single-file program.
 func TranspileOne(src string, target Target) TResult {
 	return TranspileSrc(map[string]string{"main.tsh": src}, "main.tsh", target)
